@@ -510,6 +510,8 @@ def _special_cases():
         out.append({"kind": "special", "what": "qcow2-invalid-bitmap", "bitmap": bm})
     for depth in (1, 3, 40):
         out.append({"kind": "special", "what": "vmdk-parent-chain-cycle", "depth": depth})
+    for tgt in ("pax-header", "first-header", "own-header"):
+        out.append({"kind": "special", "what": "vmtar-pax-size-then-visor-offset-backwards", "target": tgt})
     return out
 
 
@@ -657,6 +659,24 @@ def _run_special(case, ctx):
         f = [x for x in img.fields if x[0] == "l2bitmap[0][0]"][0][1]
         struct.pack_into(">Q", raw, f, bm)
         return _execute(ctx, case, _seed("qcow2.extl2"), bytes(raw), subject, drv_qcow2, {})
+    if what == "vmtar-pax-size-then-visor-offset-backwards":
+        from mc.builders import vmtar as BT
+
+        # a pax extended header carrying a size record, followed by a visor member whose recorded data offset points
+        # backwards at an earlier header: a reader that derives "where the next header is" from the data offset goes round
+        rec = b"size=0\n"
+        body = b"%d %s" % (len(rec) + 3, rec)
+        body = b"%d %s" % (len(b"%d %s" % (len(rec) + 2, rec)), rec) if len(body) != int(body.split(b" ")[0]) else body
+        pax = BT.hdr("PaxHeader/x", len(body), typ=b"x", visor=False) + BT.pad512(body)
+        first = BT.hdr("d/", 0, typ=b"5", mode=0o755)
+        target = {"pax-header": 512, "first-header": 0x200 * 0 + 512 * 0 + 512, "own-header": 512 + len(pax)}[case["target"]]
+        if case["target"] == "first-header":
+            target = 512  # offset 0 would mean "no recorded offset": the earliest nameable header is the one at 512
+            first = BT.hdr("d/", 0, typ=b"5", mode=0o755) + BT.hdr("e/", 0, typ=b"5", mode=0o755)
+            target = 512
+        vis = BT.hdr("d/file", 700, offset_data=target)
+        raw = first + pax + vis + b"\0" * 1024 + b"D" * 1024
+        return _execute(ctx, case, _seed("vmtar"), raw, subject, drv_vmtar, {})
     if what == "vmdk-parent-chain-cycle":
         depth = case["depth"]
 
